@@ -287,6 +287,7 @@ RESET_TIMER:
 			// Pre-Go 1.23: Reset does not drain the channel;
 			// callers must drain at the goto-site before arriving here.
 			timeout.Reset(time.Until(trd))
+			c = timeout.C // re-enable the select case: it is nil after the deadline was cleared
 		}
 	} else if timeout != nil {
 		timeout.Stop()
@@ -377,6 +378,7 @@ RESET_TIMER:
 			// Pre-Go 1.23: Reset does not drain the channel;
 			// callers must drain at the goto-site before arriving here.
 			timeout.Reset(time.Until(twd))
+			c = timeout.C // re-enable the select case: it is nil after the deadline was cleared
 		}
 	} else if timeout != nil {
 		timeout.Stop()
